@@ -434,4 +434,7 @@ func exec(op string) vlib.Res {
 	return vlib.Res{Impl: "bad-op"}
 }
 
-func main() { vlib.Main(&vlib.Driver{Facts: facts, Exec: exec, Gen: gen}) }
+func main() {
+	defer stopLive() // a replay may end without `srv stop`
+	vlib.Main(&vlib.Driver{Facts: facts, Exec: exec, Gen: gen})
+}
